@@ -135,8 +135,11 @@ pub fn gen_tx(rng: &mut Rng, nfrom: usize, nto: usize, ndata: usize, nhops: usiz
     for i in 0..nto {
         t.to.push(gen_slip(rng, i + 3 * ty + 1));
     }
-    t.data = rvec(rng, ndata);
     t.transaction_type = TX_TYPES[ty % 9];
+    // the payload of a GoldenTicket-type transaction is a 97-byte golden ticket
+    // (enforced by the wire decoder since /repo eeb4ec7)
+    let ndata = if let TransactionType::GoldenTicket = t.transaction_type { 97 } else { ndata };
+    t.data = rvec(rng, ndata);
     t.txs_replacements = extreme_u32(rng);
     t.signature = rbytes::<64>(rng);
     for _ in 0..nhops {
